@@ -93,6 +93,10 @@ func (h *hbWorld) do(tag, op string) {
 		r = fmt.Sprint(h.hm.IsHeartbeatRunning())
 	case "Remove":
 		h.L.RemoveEntity(h.e)
+	case "SetLocal":
+		// the feature is registered with the manager again (as applications and the repository's tests do after
+		// AddFunctionType): publishes a refresh of its own, possibly while the periodic refreshes are running
+		h.hm.SetLocalFeature(h.e, h.f)
 	}
 	rt.Mark("r " + tag + " " + op + " " + r)
 }
@@ -245,7 +249,7 @@ func c16Scenario(timeout time.Duration, pre []string, threads [][]string) *engin
 			}
 			ok := true
 			for _, o := range ops {
-				if (o.op == "Add" || o.op == "Start") && o.ret > s.call {
+				if (o.op == "Add" || o.op == "Start" || o.op == "SetLocal") && o.ret > s.call {
 					ok = false
 				}
 			}
@@ -273,7 +277,7 @@ func c16Scenario(timeout time.Duration, pre []string, threads [][]string) *engin
 		// running and never stopped: the stream must keep refreshing over the horizon
 		started, stopped := false, false
 		for _, o := range ops {
-			if o.op == "Add" || (o.op == "Start" && o.result != "err") {
+			if o.op == "Add" || o.op == "SetLocal" || (o.op == "Start" && o.result != "err") {
 				started = true
 			}
 			if o.op == "Stop" || o.op == "Remove" {
@@ -373,6 +377,8 @@ func c16Scenarios(thorough bool) []*engine.SScenario {
 		scs = append(scs, c16Scenario(t4, []string{"Add"}, p))
 	}
 	scs = append(scs, c16Scenario(t4, nil, [][]string{{"Add"}, {"Stop"}}), c16Scenario(t4, nil, [][]string{{"Add"}, {"Start"}}))
+	// the refresh published by a re-registration against the periodic refreshes of the running stream
+	scs = append(scs, c16Scenario(t4, []string{"Add"}, [][]string{{"SetLocal"}}), c16Scenario(t4, []string{"Add", "Stop"}, [][]string{{"SetLocal"}}), c16Scenario(t4, []string{"Add"}, [][]string{{"SetLocal"}, {"Stop"}}))
 	return scs
 }
 
